@@ -858,11 +858,30 @@ class Engine:
     def loop_ctx(self, pre, cur, loop):
         return Ctx(self, pre, cur, self.cur_args, loop=loop, entry=self.entry_state)
 
+    def eval_inv(self, st, spec, pre, loopinfo, ordn, line):
+        """the invariant's clauses over the loop's variables, or None when the sidecar invariant
+        does not fit the loop any more (a variable or cursor it mentions is missing): that is a
+        failed obligation of its own ("the invariant is expressible here"), not a checker error"""
+        c = self.loop_ctx(pre, st, loopinfo)
+        try:
+            clauses = list(spec.inv(c))
+        except (KeyError, AttributeError, TypeError, z3.Z3Exception) as e:
+            self.oblige(st, z3.BoolVal(False), 'inv-init', 'loop%d.applicable' % ordn,
+                        props=spec.props or None, line=line,
+                        extra={'why': 'invariant not expressible: %s: %s' % (type(e).__name__, e)})
+            return None
+        return clauses
+
     def check_inv(self, st, spec, pre, loopinfo, phase, ordn, line):
         if spec is None:
             return
-        c = self.loop_ctx(pre, st, loopinfo)
-        for (label, f) in spec.inv(c):
+        clauses = self.eval_inv(st, spec, pre, loopinfo, ordn, line)
+        if clauses is None:
+            return
+        if phase == 'init':
+            self.oblige(st, z3.BoolVal(True), 'inv-init', 'loop%d.applicable' % ordn,
+                        props=spec.props or None, line=line)
+        for (label, f) in clauses:
             self.oblige(st, f, 'inv-' + phase, 'loop%d.%s' % (ordn, label),
                         props=spec.props or None, line=line)
 
@@ -870,7 +889,11 @@ class Engine:
         if spec is None:
             return
         c = self.loop_ctx(pre, st, loopinfo)
-        for (label, f) in spec.inv(c):
+        try:
+            clauses = list(spec.inv(c))
+        except (KeyError, AttributeError, TypeError, z3.Z3Exception):
+            return
+        for (label, f) in clauses:
             st.assume(f)
 
     def st_While(self, s, st):
